@@ -152,6 +152,7 @@ MUTANTS = {
     "getresults_refreshes_the_queue": M(PROCESS, "        return self.searchData.solution\n", "        if self.searchData.GetCount() > 3:\n            self.searchData.RefillQueue()\n        return self.searchData.solution\n", ["C02", "C11"], note="a read that steers: harmless between iterations, but between taking an interval from the queue and inserting the new trial (GetResults called from inside the objective) it re-queues the interval being split"),
     "class_level_queue": M(SDATA, "        self._RGlobalQueue = CharacteristicsQueue(maxlen)\n        self.__firstDataItem", "        self._RGlobalQueue = SearchData._SHARED_Q\n        self.__firstDataItem", ["C12"]),
     "first_iteration_rerun_by_solve": M(PROCESS, "        startTime = datetime.now()\n", "        if self.__first_iteration is False:\n            self.method.FirstIteration()\n        startTime = datetime.now()\n", ["C11"], note="the commented-out block in Solve, re-enabled"),
+    "nan_characteristic_reaches_the_queue": M(SDATA, "        if key != key:\n", "        if False:\n", ["C03"], note="revert of fix 14"),
     "image_expands_its_argument_in_place": M(EVOL, "        d = float(_x)\n", "        d = _x\n", ["C17"], note="revert of fix 13"),
     "image_1d_reuses_the_work_vector": M(EVOL, "            self.yValues = np.zeros(1, dtype=np.double)\n            self.yValues[0] = _x - 0.5", "            self.yValues[0] = _x - 0.5", ["C17"], note="revert of fix 12"),
     "inverse_no_copy_in": M(EVOL, "        self.yValues = np.array(y, dtype=np.double)\n        self.__TransformD2P()\n        x = self.__GetXonY()\n        return x\n\n    # ----------------------", "        self.yValues = np.asarray(y, dtype=np.double)\n        self.__TransformD2P()\n        x = self.__GetXonY()\n        return x\n\n    # ----------------------", ["C17"]),
